@@ -315,6 +315,15 @@ func ruleAddImport(c *Ctx, r *Repo, rule string) {
 		return
 	}
 	c.Func(funcKey(tp, fd))
+	// the qualifier search may have been extracted into a helper that returns the chosen qualifier
+	fd = inlineHelpers(tp, fd, func(g *ast.FuncDecl) bool {
+		for _, h := range withCallees(tp, g) {
+			if strings.Contains(nodeString(h.Body), ".importQualifiers") {
+				return true
+			}
+		}
+		return false
+	})
 	var loop *ast.ForStmt
 	loopIdx := -1
 	for i, s := range fd.Body.List {
